@@ -574,7 +574,7 @@ func runC20(p *an.Prog, r *an.Run, tier string) {
 			if w, held := li.Before[in]["p0.mu"]; !held || !w {
 				return
 			}
-			if c, ok := st.Val.(*ssa.Const); ok && c.Value != nil && c.Value.String() == "false" {
+			if c, ok := st.Val.(*ssa.Const); ok && c.Value != nil && (c.Value.String() == "false" || c.Value.String() == "0") {
 				helpers[fn] = -1
 			}
 			for i, prm := range fn.Params {
@@ -584,9 +584,14 @@ func runC20(p *an.Prog, r *an.Run, tier string) {
 			}
 		})
 	}
+	// the flag is a bool or a two-state named type: "stopped" is the zero value, "started" any other constant
 	isBoolConst := func(v ssa.Value, want bool) bool {
 		c, ok := v.(*ssa.Const)
-		return ok && c.Value != nil && c.Value.String() == map[bool]string{true: "true", false: "false"}[want]
+		if !ok || c.Value == nil {
+			return false
+		}
+		zero := c.Value.String() == "false" || c.Value.String() == "0"
+		return zero != want
 	}
 	mkIsSet := func(fn *ssa.Function, want bool) func(ssa.Instruction) bool {
 		li := an.Locksets(fn, nil)
@@ -649,9 +654,43 @@ func runC20(p *an.Prog, r *an.Run, tier string) {
 		}
 		// refusal
 		okRefuse := false
+		// the branch taken when the flag says "started": `if a.started`, or a comparison of the flag with a constant
+		type startedBranch struct {
+			iff  *ssa.If
+			succ int
+		}
+		var branches []startedBranch
 		for _, ref := range *load.Referrers() {
-			if iff, ok := ref.(*ssa.If); ok {
-				b := iff.Block().Succs[0]
+			switch x := ref.(type) {
+			case *ssa.If:
+				branches = append(branches, startedBranch{x, 0})
+			case *ssa.BinOp:
+				if x.Op != token.EQL && x.Op != token.NEQ {
+					continue
+				}
+				other := x.Y
+				if other == ssa.Value(load) {
+					other = x.X
+				}
+				isStartedVal := isBoolConst(other, true)
+				if !isStartedVal && !isBoolConst(other, false) {
+					continue
+				}
+				for _, r2 := range *x.Referrers() {
+					if iff, ok := r2.(*ssa.If); ok {
+						succ := 1
+						if (x.Op == token.EQL) == isStartedVal {
+							succ = 0
+						}
+						branches = append(branches, startedBranch{iff, succ})
+					}
+				}
+			}
+		}
+		for _, br := range branches {
+			{
+				iff := br.iff
+				b := iff.Block().Succs[br.succ]
 				refuses := false
 				for _, blk := range reachBlocksNoLoop(b) {
 					for _, in := range blk.Instrs {
